@@ -31,12 +31,12 @@ def relation(E, P, S):
     return 'generic'
 
 
-def emit_pair(g, gc, rng, P, S, tagP, tagS):
+def emit_pair(g, gc, rng, P, S, tagP, tagS, kindP=None, kindS=None):
     """all operations on one ordered pair of points, in fresh representatives"""
     E = gc.E
     n, cn = gc.name, gc.cname
-    ra, ka = gc.rep(P, rng)
-    rb, kb = gc.rep(S, rng)
+    ra, ka = gc.rep(P, rng, kindP if P is not None else None)
+    rb, kb = gc.rep(S, rng, kindS if S is not None else None)
     api = rng.random() < 0.5
     rel = relation(E, P, S)
     if api:
@@ -54,9 +54,9 @@ def emit_pair(g, gc, rng, P, S, tagP, tagS):
     g.add(('c.%saffine_equal %s %s' % (cn, pa, sa)) if api else ('%s.affeq %s %s' % (n, pa, sa)), gc, 'eq', P, S, 'affine/' + rel)
 
 
-def emit_single(g, gc, rng, P, tag):
+def emit_single(g, gc, rng, P, tag, kindP=None):
     n, cn = gc.name, gc.cname
-    ra, ka = gc.rep(P, rng)
+    ra, ka = gc.rep(P, rng, kindP if P is not None else None)
     api = rng.random() < 0.5
     base = 'O' if P is None else tag
     g.add(('c.%s_double %s' % (cn, ra)) if api else ('%s.dbl %s' % (n, ra)), gc, 'dbl', P, '%s/%s' % (base, ka))
@@ -90,6 +90,14 @@ def gen(g, gc, pool, rng, n, directed):
             # chains that return to a previous point: (P + S) - S and P + P through add
             emit_pair(g, gc, rng, P, P, tp, tp)
             emit_pair(g, gc, rng, P, E.neg(P), tp, tp)
+        # every structured representative (z = -1, 1+tu, u, the value whose limbs read 1, ...) through every operation and relation
+        P = pool.dl[3]
+        S = pool.dl[2]
+        for zk in gc.zkinds():
+            emit_single(g, gc, rng, P, 'sub', zk)
+            for other, rel_s in ((S, 'sub'), (P, 'sub'), (E.neg(P), 'sub'), (None, 'O')):
+                emit_pair(g, gc, rng, P, other, 'sub', rel_s, zk, rng.choice(['z1', 'zr', zk]))
+                emit_pair(g, gc, rng, other, P, rel_s, 'sub', rng.choice(['z1', 'zr']), zk)
     for _ in range(n):
         tp, P = pool.any(rng)
         t = rng.random()
